@@ -66,13 +66,12 @@ void IdxSet::remove(int n, int m)
    int newnum = num - cpy;
    cpy = (size() - m >= cpy) ? cpy : size() - m;
 
-   do
+   while(cpy > 0)
    {
       --num;
       --cpy;
       idx[n + cpy] = idx[num];
    }
-   while(cpy > 0);
 
    num = newnum;
 }
